@@ -242,8 +242,9 @@ Lemma roundtrip_refuted_backslash :
   let d := with_message (repeat 120 58 ++ [BSL] ++ asc "yyyy") in
   serialises d = true /\ roundtrips d = false.
 Proof. split; vm_compute; reflexivity. Qed.
-Lemma roundtrip_refuted_negative_minutes :
-  serialises (with_zone 0 (-12600)) = true /\ roundtrips (with_zone 0 (-12600)) = false.
+(* regression (parse_patch_date repaired 2026-09-22): a negative half-hour zone is inside the guard *)
+Example roundtrip_negative_minutes :
+  dir_ok (with_zone 0 (-12600)) = true /\ roundtrips (with_zone 0 (-12600)) = true.
 Proof. split; vm_compute; reflexivity. Qed.
 Lemma roundtrip_refuted_subsecond :
   serialises (with_zone 750000000 3600) = true /\ roundtrips (with_zone 750000000 3600) = false.
